@@ -47,6 +47,20 @@ func c12buildGrids(thorough bool) {
 		}
 		add(c+"-grid-missing-key", prog)
 	}
+	// GETRANGE / SUBSTR with indices at the edges of the 64-bit range
+	for _, c := range []string{"GETRANGE", "SUBSTR"} {
+		ext := []string{"-9223372036854775808", "-9223372036854775807", "-4294967296", "-2", "-1", "0", "1", "2", "4294967296", "9223372036854775806", "9223372036854775807"}
+		var prog []resp.Value
+		for l := 0; l <= 3; l++ {
+			prog = append(prog, cmd("SET", "s", "abc"[:l]))
+			for _, st := range ext {
+				for _, en := range ext {
+					prog = append(prog, cmd(c, "s", st, en))
+				}
+			}
+		}
+		add(c+"-grid-extreme-indices", prog)
+	}
 	// ZREVRANGE: sizes 0..5 x start,stop in -7..7 x {plain, WITHSCORES}, distinct and tied scores
 	for _, tied := range []bool{false, true} {
 		for size := 0; size <= 5; size++ {
@@ -348,7 +362,7 @@ func init() {
 	run.Register(&run.Prop{
 		ID: "C12", Level: "exploration",
 		Rule: func(tier string) string {
-			return "case = one command program run through the real connection loop with a reference store (Redis-like primitives over an executable model state, one mutex) as handler, and through the executable Redis model directly; every reply compared as decoded values (status vs bulk, set/hash order, error text and float formatting insensitive) and the final store contents compared with the model state. Exhaustive grids: GETRANGE and SUBSTR on strings of length 0..6 x start,end in -9..9 (and a missing key); ZREVRANGE on sets of size 0..5 x start,stop in -7..7 x {plain, WITHSCORES} x {distinct, tied scores}; ZREVRANGEBYSCORE over 6x6 bounds x inclusive/exclusive x WITHSCORES x tied with LIMIT; counters at the 64-bit boundary and on non-integers, and on every stored string of length <= 3 over {-, +, 0, 1, 9, space, .}. Then seeded random programs (<=25 steps, 3 keys, value pool with integers near +-2^63, non-integers, empty, binary) over PING, ECHO, MSET, MSETNX, MGET, APPEND, INCR/DECR/INCRBY/DECRBY, STRLEN, GETRANGE, HMSET, HMGET, HEXISTS, HKEYS, HVALS, HLEN, HSTRLEN, SCARD, SISMEMBER, ZCARD, ZREVRANGE, ZREVRANGEBYSCORE, CONFIG SET/GET. distinct_nontrivial = distinct (command argv, model-state tags) steps"
+			return "case = one command program run through the real connection loop with a reference store (Redis-like primitives over an executable model state, one mutex) as handler, and through the executable Redis model directly; every reply compared as decoded values (status vs bulk, set/hash order, error text and float formatting insensitive) and the final store contents compared with the model state. Exhaustive grids: GETRANGE and SUBSTR on strings of length 0..6 x start,end in -9..9 (and a missing key), and on strings of length 0..3 x start,end over 11 values from -2^63 to 2^63-1; ZREVRANGE on sets of size 0..5 x start,stop in -7..7 x {plain, WITHSCORES} x {distinct, tied scores}; ZREVRANGEBYSCORE over 6x6 bounds x inclusive/exclusive x WITHSCORES x tied with LIMIT; counters at the 64-bit boundary and on non-integers, and on every stored string of length <= 3 over {-, +, 0, 1, 9, space, .}. Then seeded random programs (<=25 steps, 3 keys, value pool with integers near +-2^63, non-integers, empty, binary) over PING, ECHO, MSET, MSETNX, MGET, APPEND, INCR/DECR/INCRBY/DECRBY, STRLEN, GETRANGE, HMSET, HMGET, HEXISTS, HKEYS, HVALS, HLEN, HSTRLEN, SCARD, SISMEMBER, ZCARD, ZREVRANGE, ZREVRANGEBYSCORE, CONFIG SET/GET. distinct_nontrivial = distinct (command argv, model-state tags) steps"
 		},
 		Exhaustive:  func(string) bool { return false },
 		Assumptions: []string{"the executable model in /verif/harness/model (written from the Redis command reference, own unit tests) is the reference", "integer syntax follows Redis string2ll (no '+', no leading zeros); such tokens are not generated"},
